@@ -471,6 +471,175 @@ def unit_canary():
     return Unit('canary/cast-out-is-direct', run, kind='canary', expect='refuted')
 
 
+# --------------------------------------------------------------------------
+# legacy ufunc namespace of product-space elements (odl.util.ufuncs:wrap_ufunc_productspace)
+
+UFN = 'odl.util.ufuncs:'
+
+
+def unit_pspace_legacy(n_in, n_out, x2kind, with_out, k=2):
+    """The wrapper returned by wrap_ufunc_productspace(name, n_in, n_out, doc) on an element of a product space with k components: component i's own
+    `ufuncs.<name>` is called exactly once, with the caller's keywords, with x2's component i when x2 BELONGS to the product space and with x2 itself
+    (broadcast) otherwise - whatever the Python type of x2 -, with out's component i when out is given; the result is space.element(<component results>)
+    resp. the caller's out object(s)."""
+    def run(ctx):
+        I = ctx.I
+        factory = I.get_func(UFN + 'wrap_ufunc_productspace')
+
+        def path(st):
+            fr = ip.Frame(st)
+            calls = []
+
+            class PClass(object):
+                """the class of product-space elements"""
+
+                def pv_instancecheck(self, I_, v):
+                    return isinstance(v, PEl)
+
+            pclass = PClass()
+
+            class Leaf(object):
+                def __init__(self, tag):
+                    self.tag = tag
+
+                def __repr__(self):
+                    return '<leaf %s>' % self.tag
+
+                def pv_getattr(self, I_, fr_, name):
+                    if name == 'ufuncs':
+                        me = self
+
+                        class UF(object):
+                            def pv_getattr(self, I2, fr2, uname):
+                                def call(I3, fr3, a, kw):
+                                    calls.append((me, uname, tuple(a), dict(kw)))
+                                    if 'out' in kw and kw['out'] is not None:
+                                        return kw['out']
+                                    if 'out1' in kw:
+                                        return (kw['out1'], kw['out2'])
+                                    return ('result', me.tag)
+                                return ip.Builtin(uname, call)
+                        return UF()
+                    raise Unsupported('leaf .%s' % name)
+
+            class PSp(object):
+                def __init__(self, tag):
+                    self.tag = tag
+                    self.made = []
+
+                def pv_contains(self, I_, fr_, item):
+                    return isinstance(item, PEl) and item.space is self
+
+                def pv_getattr(self, I_, fr_, name):
+                    if name == 'element':
+                        def el(I2, fr2, a, kw):
+                            if a:
+                                e = PEl('new', self, list(a[0]))
+                            else:
+                                e = PEl('empty%d' % len(self.made), self, [Leaf('empty%d.%d' % (len(self.made), i)) for i in range(k)])
+                            self.made.append(e)
+                            return e
+                        return ip.Builtin('element', el)
+                    raise Unsupported('space .%s' % name)
+
+            class PEl(object):
+                def __init__(self, tag, space, comps):
+                    self.tag, self.space, self.comps = tag, space, comps
+
+                def __repr__(self):
+                    return '<pelem %s>' % self.tag
+
+                def pv_iter(self, I_, fr_):
+                    return iter(list(self.comps))
+
+                def pv_len(self, I_, fr_):
+                    return len(self.comps)
+
+                def pv_type(self, I_, fr_):
+                    return pclass
+
+                def pv_isinstance(self, I_, cls):
+                    return cls is pclass or getattr(cls, 'name', None) in ('ProductSpaceElement', 'LinearSpaceElement')
+
+                def pv_getattr(self, I_, fr_, name):
+                    if name == 'space':
+                        return self.space
+                    raise Unsupported('product-space element .%s' % name)
+
+            class Self(object):
+                def __init__(self, elem):
+                    self.elem = elem
+
+                def pv_getattr(self, I_, fr_, name):
+                    if name == 'elem':
+                        return self.elem
+                    raise Unsupported('ufuncs object .%s' % name)
+            sp, inner = PSp('P'), PSp('inner')
+            x = PEl('x', sp, [Leaf('x%d' % i) for i in range(k)])
+            if x2kind == 'member':
+                x2 = PEl('y', sp, [Leaf('y%d' % i) for i in range(k)])
+            elif x2kind == 'inner-pelem':
+                x2 = PEl('v', inner, [Leaf('v%d' % i) for i in range(k)])      # a product-space element of ANOTHER (the inner) space with as many parts
+            elif x2kind == 'leaf':
+                x2 = Leaf('u')
+            else:
+                x2 = 1.5
+            out = PEl('o', sp, [Leaf('o%d' % i) for i in range(k)]) if with_out else None
+            out2 = PEl('p', sp, [Leaf('p%d' % i) for i in range(k)]) if with_out else None
+            w = I.call(factory, ['myufunc', n_in, n_out, 'doc'], {}, fr)
+            me = Self(x)
+            try:
+                if n_in == 1 and n_out == 1:
+                    res = I.call(w, [me], {'out': out, 'flag': 7}, fr)
+                elif n_in == 1:
+                    res = I.call(w, [me], {'out1': out, 'out2': out2, 'flag': 7}, fr)
+                else:
+                    res = I.call(w, [me, x2], {'out': out, 'flag': 7}, fr)
+            except ip.PyRaise as e:
+                return ('raise', e.exc)
+            return ('ok', dict(calls=calls, res=res, x=x, x2=x2, out=out, out2=out2, sp=sp))
+        info = {'n_in': n_in, 'n_out': n_out, 'x2': x2kind, 'out': with_out, 'components': k}
+        for st, (status, r) in ctx.explore(path):
+            if status == 'raise':
+                ctx.fail(st, 'dispatch does not raise', 'raises %s' % lib.exc_desc(r), info)
+                continue
+            calls, x, x2, out, out2, sp = r['calls'], r['x'], r['x2'], r['out'], r['out2'], r['sp']
+            ctx.prove(st, 'legacy: one call of the ufunc of the same name per component, in order', len(calls) == k and all(c[0] is x.comps[i] and c[1] == 'myufunc' for i, c in enumerate(calls)),
+                      dict(info, got=repr(calls)))
+            if len(calls) != k:
+                continue
+            for i, (leaf, uname, a, kw) in enumerate(calls):
+                if n_in == 2:
+                    want = x2.comps[i] if x2kind == 'member' else x2
+                    ctx.prove(st, 'legacy: component %d gets %s' % (i, 'component %d of x2 (x2 belongs to the space)' % i if x2kind == 'member' else 'x2 itself (broadcast: x2 does not belong to the space)'),
+                              len(a) == 1 and a[0] is want, dict(info, got=repr(a)))
+                else:
+                    ctx.prove(st, 'legacy: no positional operand for a unary ufunc', a == (), dict(info, got=repr(a)))
+                ctx.prove(st, 'legacy: the caller\'s keywords are handed on', kw.get('flag') == 7, dict(info, got=repr(kw)))
+                if with_out or n_out == 2:
+                    if n_out == 1:
+                        ctx.prove(st, 'legacy: component %d writes into component %d of out' % (i, i), kw.get('out') is out.comps[i], dict(info, got=repr(kw)))
+                    else:
+                        o1 = out if with_out else (sp.made[0] if sp.made else None)
+                        o2 = out2 if with_out else (sp.made[1] if len(sp.made) > 1 else None)
+                        ctx.prove(st, 'legacy: component %d writes into components %d of out1 / out2' % (i, i), o1 is not None and o2 is not None and kw.get('out1') is o1.comps[i] and kw.get('out2') is o2.comps[i], dict(info, got=repr(kw)))
+                else:
+                    ctx.prove(st, 'legacy: out-of-place component call', kw.get('out') is None, dict(info, got=repr(kw)))
+            res = r['res']
+            if n_out == 2:
+                ctx.prove(st, 'legacy: returns (out1, out2)', isinstance(res, tuple) and len(res) == 2 and (not with_out or (res[0] is out and res[1] is out2)) and res[0] is not res[1], dict(info, got=repr(res)))
+            elif with_out:
+                ctx.prove(st, 'legacy: the caller\'s out is returned (identity)', res is out, dict(info, got=repr(res)))
+            else:
+                ctx.prove(st, 'legacy: result is space.element(<component results in order>)', isinstance(res, PEl_types(res)) and getattr(res, 'space', None) is sp and
+                          list(getattr(res, 'comps', [])) == [('result', 'x%d' % i) for i in range(k)], dict(info, got=repr(getattr(res, 'comps', res))))
+    return Unit('legacy-pspace/nin=%d/nout=%d/x2=%s/out=%s/k=%d' % (n_in, n_out, x2kind, with_out, k), run, funcs=[UFN + 'wrap_ufunc_productspace'], config={'n_in': n_in, 'n_out': n_out, 'x2': x2kind, 'out': with_out})
+
+
+def PEl_types(res):
+    return type(res)
+
+
 def replay(ob):
     from contracts import replay_c17
     return replay_c17.replay(ob)
@@ -492,5 +661,11 @@ def units(tier, seed):
             us.append(unit_discr(method, outk))
     us.append(unit_errors())
     us.append(unit_element())
+    for with_out in (False, True):
+        us.append(unit_pspace_legacy(1, 1, 'none', with_out))
+        us.append(unit_pspace_legacy(1, 2, 'none', with_out))
+        for x2kind in ('member', 'inner-pelem', 'leaf', 'scalar'):
+            us.append(unit_pspace_legacy(2, 1, x2kind, with_out))
+            us.append(unit_pspace_legacy(2, 1, x2kind, with_out, k=3))
     us.append(unit_canary())
     return us
